@@ -390,7 +390,7 @@ func (f *Flat) nodeCalls(n *GNode, keys ...string) *ast.CallExpr {
 		return nil
 	}
 	for _, c := range callsIn(n.Ast, false) {
-		if f.P.callIs(f.Pkg, c, keys...) {
+		if f.callIs(c, keys...) {
 			return c
 		}
 	}
@@ -816,4 +816,46 @@ func (f *Flat) Origins(node int, e ast.Expr) []ast.Expr {
 	}
 	walk(node, e, 0)
 	return res
+}
+
+// callIs is Prog.callIs plus the calls of a function-typed parameter that a spliced-in helper's binding ties to a
+// declared function or a method value of the module: write(p, rw.checkErr) with "err = admit()" inside.
+func (f *Flat) callIs(c *ast.CallExpr, keys ...string) bool {
+	if f.P.callIs(f.Pkg, c, keys...) {
+		return true
+	}
+	if f.Alias == nil {
+		return false
+	}
+	o := objOf(f.Pkg.TypesInfo, c.Fun)
+	if o == nil {
+		return false
+	}
+	for i := 0; i < 4 && o != nil; i++ {
+		a, ok := f.Alias[o]
+		if !ok {
+			return false
+		}
+		var id *ast.Ident
+		switch x := ast.Unparen(a).(type) {
+		case *ast.Ident:
+			id = x
+		case *ast.SelectorExpr:
+			id = x.Sel
+		}
+		if id == nil {
+			return false
+		}
+		if fn, ok := f.Pkg.TypesInfo.Uses[id].(*types.Func); ok {
+			k := fkey(fn.Origin())
+			for _, want := range keys {
+				if k == want || (strings.HasPrefix(k, "(") && toggleRecvStar(k) == want) {
+					return true
+				}
+			}
+			return false
+		}
+		o = f.Pkg.TypesInfo.Uses[id]
+	}
+	return false
 }
